@@ -95,6 +95,9 @@ class Timeout(Exception):
     pass
 
 
+BUDGET = {'timeouts': 0}     # after two calculations that did not end in 30 s the others of this process get 3 s
+
+
 def _alarm(signum, frame):
     raise Timeout()
 
@@ -347,13 +350,14 @@ def run_case(case):
         before = snapshot(wbs, ext)
         sched = make()
         signal.signal(signal.SIGALRM, _alarm)
-        signal.alarm(60)
+        signal.alarm(3 if BUDGET['timeouts'] >= 2 else 30)
         try:
             sch = sched.calc(wbs)
             out['outcome'] = 0
         except Timeout:
             sch = None
             out['outcome'] = 20
+            BUDGET['timeouts'] += 1
         except BaseException as ex:  # noqa
             sch = None
             out['outcome'] = exc_code(ex)
@@ -381,6 +385,7 @@ def run_case(case):
             out['obs'] = observe_schedule(sch, res_index)
             out['shape'] = shape_problems(wbs, sch.schedule)
             again = []
+            signal.alarm(3 if BUDGET['timeouts'] >= 2 else 60)
             try:
                 again.append(observe_schedule(sched.calc(wbs), res_index))          # same scheduler object again
                 again.append(observe_schedule(make().calc(wbs), res_index))         # fresh scheduler
@@ -391,8 +396,13 @@ def run_case(case):
                     except RuntimeError:
                         out['now2_raised'] = True   # e.g. a fixed end between the two clocks
                     set_clock(case['now'])
+            except Timeout:
+                out['again_exc'] = 'Timeout: a repeated calculation did not end'
+                BUDGET['timeouts'] += 1
             except BaseException as ex:  # noqa
                 out['again_exc'] = '%s: %s' % (type(ex).__name__, str(ex)[:200])
+            finally:
+                signal.alarm(0)
             out['again'] = again
             out['pure2'] = snapshot(wbs, ext) == before
         out = finalize(out, offgrid)
